@@ -16,7 +16,7 @@ from ..astutil import calls_in, call_name, where
 from ..cfg import build_cfg
 from ..logic import known, entails, reach_avoiding
 from ..model import AnalysisError, unparse, walk_no_nested
-from ..symtext import Expander, strip_order_keeping
+from ..symtext import Expander, strip_order_keeping, effect_calls
 
 DECIDED = [
     "TRAV-1 itersections consumes its work list at one end and fills it at the other (FIFO = breadth first); the only loop exit is the empty list",
@@ -159,8 +159,7 @@ def run(prog, rep):
     rep.check(len(inner) == 1, "TRAV-2", "children are enqueued by exactly one statement", "ok",
               "the loop enqueues at %d places: children can be visited twice or never" % len(inner), f.where)
     for n, c in inner:
-        arg = c.args[-1] if isinstance(c, ast.Call) and c.args else getattr(c, "value", None)
-        t = x.text(arg, n) if arg is not None else "?"
+        t = _produced(c, x, n)
         want = "(EACH(%s.sections), %s + 1)" % (sec_t, lvl_t)
         alt = "(EACH(%s._sections), %s + 1)" % (sec_t, lvl_t)
         rep.check(t in (want, alt), "TRAV-2", "enqueue (child, level + 1) for the children of the dequeued section", t,
@@ -190,8 +189,7 @@ def run(prog, rep):
     seeds = [(n, c) for n, c, e in prod[W] if not in_loop(n)]
     rep.floor("TRAV-3", len(seeds), 1, "seeds of the work list")
     for n, c in seeds:
-        arg = c.args[-1] if isinstance(c, ast.Call) and c.args else getattr(c, "value", None)
-        t = x.text(arg, n) if arg is not None else "?"
+        t = _produced(c, x, n)
         if t == "(%s, 0)" % me:
             rep.ok("TRAV-3", "seed (self, 0)", t, where(f, n.ast))
         elif t in ("(EACH(%s.sections), 1)" % me, "(EACH(%s._sections), 1)" % me):
@@ -270,7 +268,7 @@ def run(prog, rep):
               "get_path builds with %s, _get_section_by_path parses with %s" % (sorted(built), sorted(parsed)), sbp.where,
               witness="get_section_by_path(sec.get_path()) fails for every nested section")
     pbuilt = _concat_literals(pgp) - built
-    pparsed = _literals(pbp, ("join",), ("split",))
+    pparsed = _literals(pbp, ("join",), ("split", "partition", "rpartition"))
     rep.check(len(pbuilt) == 1 and pbuilt == pparsed, "PATH-1", "Property path separator agrees between builder and parser", "%s / %s" % (sorted(pbuilt), sorted(pparsed)),
               "BaseProperty.get_path appends with %s, get_property_by_path splits on %s" % (sorted(pbuilt), sorted(pparsed)), pbp.where,
               witness="get_property_by_path(prop.get_path()) fails")
@@ -322,10 +320,11 @@ def run(prog, rep):
                       "under %s the path step is `%s`" % ([a for a in atoms if "==" in a[0]], t), where(sbp, n.ast),
                       witness="'../x' or './x' or 'a/b' resolves from the wrong node")
     rep.floor("PATH-2", n_step, 3, "step assignments in _get_section_by_path")
-    recs = [c for c in calls_in(sbp.node) if isinstance(c.func, ast.Attribute) and c.func.attr == "_get_section_by_path"]
+    recs = [e.call for e in effect_calls(prog, sbp, lambda c: isinstance(c.func, ast.Attribute) and c.func.attr == "_get_section_by_path")]
+    rep.floor("PATH-2", len(recs), 2, "continuations of the path lookup")
     for c in recs:
-        recv = sx.text(c.func.value)
-        arg = sx.text(c.args[0]) if c.args else "?"
+        recv = unparse(c.func.value)
+        arg = unparse(c.args[0]) if c.args else "?"
         if recv == "%s.document" % m0:
             rep.check(arg == "%s[1:]" % pth, "PATH-2", "absolute path continues at the document", arg, "absolute paths continue with `%s`" % arg, where(sbp, c))
         else:
@@ -356,9 +355,10 @@ def run(prog, rep):
     px = Expander(pbp)
     prets = [px.text(n.value) for n in walk_no_nested(pbp.node) if isinstance(n, ast.Return) and n.value is not None]
     psep = sorted(pparsed)[0] if pparsed else ":"
-    wantp = "%s._match_iterable(%s._get_section_by_path(%s.split(%r)[0]).properties, %r.join(%s.split(%r)[1:]))" % (
-        pbp.params[0], pbp.params[0], pbp.params[1], psep, psep, pbp.params[1], psep)
-    rep.check(wantp in prets, "PATH-2", "get_property_by_path = section lookup, then the own properties by name", "ok",
+    m0p, pp = pbp.params[0], pbp.params[1]
+    wantp = ["%s._match_iterable(%s._get_section_by_path(%s.split(%r)[0]).properties, %r.join(%s.split(%r)[1:]))" % (m0p, m0p, pp, psep, psep, pp, psep),
+             "%s._match_iterable(%s._get_section_by_path(%s.partition(%r)[0]).properties, %s.partition(%r)[2])" % (m0p, m0p, pp, psep, pp, psep)]
+    rep.check(any(w in prets for w in wantp), "PATH-2", "get_property_by_path = section lookup, then the own properties by name", "ok",
               "get_property_by_path returns %s" % prets, pbp.where, witness="a Property path resolves inside another Section")
 
     # ------------------------------------------------------------------ FIND-1 / FIND-2
@@ -449,6 +449,30 @@ def _found_objects_rule(rep, f, rule, relation_flags):
     rep.check(len(loops) == 1, rule, "%s inspects the own children" % f.name, "one loop over self._sections", "%s does not loop over its own child sections" % f.name, f.where)
     finals = [n for n in g.nodes if n.kind == "return" and n.ast.value is not None and _only_acc(n.ast.value, acc)]
     rep.check(bool(finals) or not acc, rule, "%s returns the collected matches" % f.name, "ok", "%s collects matches but never returns them" % f.name, f.where)
+
+
+def _produced(c, x, n):
+    """expanded text of the element(s) a production call adds: append(e) -> e ; extend([e for v in it]) -> e with v := EACH(it)"""
+    arg = c.args[-1] if isinstance(c, ast.Call) and c.args else getattr(c, "value", None)
+    if arg is None:
+        return "?"
+    if isinstance(c, ast.Call) and c.func.attr in ("extend", "extendleft") or isinstance(c, ast.AugAssign):
+        if isinstance(arg, (ast.ListComp, ast.GeneratorExp)) and len(arg.generators) == 1 and not arg.generators[0].ifs \
+                and isinstance(arg.generators[0].target, ast.Name):
+            gen = arg.generators[0]
+            it, _ = strip_order_keeping(gen.iter)
+            each = ast.Call(func=ast.Name(id="EACH", ctx=ast.Load()), args=[x.expand(it, n)], keywords=[])
+            import copy
+
+            class T(ast.NodeTransformer):
+                def visit_Name(self, nm):
+                    if nm.id == gen.target.id:
+                        return copy.deepcopy(each)
+                    return nm
+            body = T().visit(copy.deepcopy(arg.elt))
+            return unparse(x._x(body, n, 0, set([gen.target.id])))
+        return "extend(%s)" % x.text(arg, n)
+    return x.text(arg, n)
 
 
 def _only_acc(e, acc):
